@@ -2,7 +2,9 @@
    literal of a declaration, in source order, and checks it against the literal's
    own value_type; L1800 is raised exactly for a loop that opens a block that is
    directly a branch of an [if]; the pinned traversal and a traversal that skips
-   parentheses miss literals. *)
+   parentheses miss literals; a typed bit literal directly under a negation gets
+   the range test [max + 1 < v] at a signed type (so that -0x80 as i8 is not
+   flagged any more), the walk of before that repair flagged it. *)
 From PV Require Import Base.Common Model.LintWalk.
 
 (* ------------------------------------------------ induction principles *)
@@ -16,7 +18,7 @@ Definition refstep_P (P : expr -> Prop) (s : refstep) : Prop :=
 Section expr_ind2.
   Variable P : expr -> Prop.
   Hypothesis HBinary : forall l r, P l -> P r -> P (EBinary l r).
-  Hypothesis HUnary : forall e, P e -> P (EUnary e).
+  Hypothesis HUnary : forall op e, P e -> P (EUnary op e).
   Hypothesis HBool : P EBool.
   Hypothesis HSigned : forall v ty p, P (ESigned v ty p).
   Hypothesis HBit : forall v ty p, P (EBit v ty p).
@@ -53,7 +55,7 @@ Section expr_ind2.
         end in
     match e with
     | EBinary l r => HBinary l r (expr_ind2 l) (expr_ind2 r)
-    | EUnary e1 => HUnary e1 (expr_ind2 e1)
+    | EUnary op e1 => HUnary op e1 (expr_ind2 e1)
     | EBool => HBool
     | ESigned v ty p => HSigned v ty p
     | EBit v ty p => HBit v ty p
@@ -188,9 +190,11 @@ Proof. reflexivity. Qed.
 
 Lemma visits_expr : forall e, visits_of (lint_expr e) = occs_expr e.
 Proof.
-  induction e as [l r IHl IHr|e IH| |v ty p|v ty p| |els IH|ms IH|e IH|r IH|e IH|e IH|e IH|r IH| |args IH| ]
+  induction e as [l r IHl IHr|op e IH| |v ty p|v ty p| |els IH|ms IH|e IH|r IH|e IH|e IH|e IH|r IH| |args IH| ]
     using expr_ind2; cbn [lint_expr occs_expr]; try reflexivity; try assumption.
   - now rewrite visits_of_app, IHl, IHr.
+  - destruct op; [|exact IH]. destruct e; try exact IH.
+    destruct ty; [reflexivity|exact IH].
   - rewrite visits_of_flat_map. now apply flat_map_ext_Forall.
   - rewrite visits_of_flat_map. apply flat_map_ext_Forall.
     eapply Forall_impl; [|exact IH]. intros [e] He. exact He.
@@ -222,9 +226,11 @@ Proof. destruct o; [apply visits_expr|reflexivity]. Qed.
 (* expressions raise no L1800 *)
 Lemma l1800s_expr : forall e, l1800s (lint_expr e) = [].
 Proof.
-  induction e as [l r IHl IHr|e IH| |v ty p|v ty p| |els IH|ms IH|e IH|r IH|e IH|e IH|e IH|r IH| |args IH| ]
+  induction e as [l r IHl IHr|op e IH| |v ty p|v ty p| |els IH|ms IH|e IH|r IH|e IH|e IH|e IH|r IH| |args IH| ]
     using expr_ind2; cbn [lint_expr]; try reflexivity; try assumption.
   - now rewrite l1800s_app, IHl, IHr.
+  - destruct op; [|exact IH]. destruct e; try exact IH.
+    destruct ty; [reflexivity|exact IH].
   - rewrite l1800s_flat_map. now apply flat_map_nil_Forall.
   - rewrite l1800s_flat_map. apply flat_map_nil_Forall.
     eapply Forall_impl; [|exact IH]. intros [e] He. exact He.
@@ -356,7 +362,7 @@ Theorem l1142_characterisation oor d :
 Proof. unfold l1142. now rewrite lint_visits_are_occurrences. Qed.
 
 Corollary l1142_always oor d o t :
-  In o (occs_decl d) -> oc_ty o = Some t -> oor (oc_signed o) (oc_val o) t = true ->
+  In o (occs_decl d) -> oc_ty o = Some t -> oor (oc_kind o) (oc_val o) t = true ->
   In (oc_pos o) (l1142 oor d).
 Proof.
   intros Hin Hty Hoor. rewrite l1142_characterisation. apply in_flat_map.
@@ -366,17 +372,17 @@ Qed.
 Corollary l1142_never oor d p :
   In p (l1142 oor d) ->
   exists o t, In o (occs_decl d) /\ oc_pos o = p /\ oc_ty o = Some t /\
-              oor (oc_signed o) (oc_val o) t = true.
+              oor (oc_kind o) (oc_val o) t = true.
 Proof.
   rewrite l1142_characterisation. intros H. apply in_flat_map in H.
   destruct H as [o [Hin Hp]]. unfold occ_l1142 in Hp.
   destruct (oc_ty o) as [t|] eqn:Hty; [|contradiction].
-  destruct (oor (oc_signed o) (oc_val o) t) eqn:Hoor; [|contradiction].
+  destruct (oor (oc_kind o) (oc_val o) t) eqn:Hoor; [|contradiction].
   destruct Hp as [Hp|[]]. exists o, t. auto.
 Qed.
 
 Corollary l1142_all_out_of_range oor d :
-  (forall sg v t, oor sg v t = true) -> l1142 oor d = lint_positions d.
+  (forall k v t, oor k v t = true) -> l1142 oor d = lint_positions d.
 Proof.
   intros Hall. unfold l1142, lint_positions, lint_checked, lint_events, typed_literals.
   induction (lint_visits d) as [|o os IH]; [reflexivity|].
@@ -387,14 +393,25 @@ Qed.
 
 (* ----------------------- relational reading of the specification *)
 
+(* a typed bit literal directly under a negation *)
+Definition is_neg_bit (op : unop) (e : expr) : bool :=
+  match op, e with
+  | UNegative, EBit _ (Some _) _ => true
+  | _, _ => false
+  end.
+
 (* "the literal o occurs in expression position in ..." with one rule per place
-   an expression can sit in the AST of common.rs. *)
+   an expression can sit in the AST of common.rs.  A typed bit literal that is
+   directly the operand of a negation occurs there with the kind KNegBit
+   (OI_negbit) and not with the kind KBit (the side condition of OI_unary). *)
 Inductive occ_in_expr : litocc -> expr -> Prop :=
-| OI_signed v ty p : occ_in_expr (MkOcc p true v ty) (ESigned v ty p)
-| OI_bit v ty p : occ_in_expr (MkOcc p false v ty) (EBit v ty p)
+| OI_signed v ty p : occ_in_expr (MkOcc p KSigned v ty) (ESigned v ty p)
+| OI_bit v ty p : occ_in_expr (MkOcc p KBit v ty) (EBit v ty p)
+| OI_negbit v t p :
+    occ_in_expr (MkOcc p KNegBit v (Some t)) (EUnary UNegative (EBit v (Some t) p))
 | OI_binary_left o l r : occ_in_expr o l -> occ_in_expr o (EBinary l r)
 | OI_binary_right o l r : occ_in_expr o r -> occ_in_expr o (EBinary l r)
-| OI_unary o e : occ_in_expr o e -> occ_in_expr o (EUnary e)
+| OI_unary o op e : is_neg_bit op e = false -> occ_in_expr o e -> occ_in_expr o (EUnary op e)
 | OI_array o els e : In e els -> occ_in_expr o e -> occ_in_expr o (EArray els)
 | OI_structural o ms e : In (MkMember e) ms -> occ_in_expr o e -> occ_in_expr o (EStructural ms)
 | OI_paren o e : occ_in_expr o e -> occ_in_expr o (EParen e)
@@ -427,10 +444,17 @@ Lemma occs_expr_iff : forall e o, In o (occs_expr e) <-> occ_in_expr o e.
 Proof.
   intros e o. split.
   - revert o.
-    induction e as [l r IHl IHr|e IH| |v ty p|v ty p| |els IH|ms IH|e IH|r IH|e IH|e IH|e IH|r IH| |args IH| ]
+    induction e as [l r IHl IHr|op e IH| |v ty p|v ty p| |els IH|ms IH|e IH|r IH|e IH|e IH|e IH|r IH| |args IH| ]
       using expr_ind2; intros o Hin; cbn [occs_expr] in Hin; try contradiction.
     + apply in_app_or in Hin. destruct Hin as [H|H]; [apply OI_binary_left|apply OI_binary_right]; auto.
-    + apply OI_unary; auto.
+    + destruct (is_neg_bit op e) eqn:Hnb.
+      * destruct op; [|discriminate Hnb].
+        destruct e as [ | | | |v [t|] p| | | | | | | | | | | | ]; try discriminate Hnb.
+        destruct Hin as [<-|[]]. constructor.
+      * apply OI_unary; [exact Hnb|]. apply IH.
+        destruct op; [|exact Hin].
+        destruct e as [ | | | |v [t|] p| | | | | | | | | | | | ]; try exact Hin.
+        discriminate Hnb.
     + destruct Hin as [<-|[]]. constructor.
     + destruct Hin as [<-|[]]. constructor.
     + apply in_flat_map in Hin. destruct Hin as [e [He Ho]].
@@ -447,11 +471,18 @@ Proof.
       rewrite Forall_forall in IH. eapply OI_length; [exact Ha|]. exact (IH _ Ha o Ho).
     + apply in_flat_map in Hin. destruct Hin as [e [He Ho]].
       rewrite Forall_forall in IH. eapply OI_call; eauto.
-  - intros H. induction H; cbn [occs_expr]; auto.
+  - intros H.
+    induction H as [v ty p|v ty p|v t p|o l r H IH|o l r H IH|o op e Hnb H IH|o els e He H IH
+                   |o ms e He H IH|o e H IH|o r a Ha H IH|o e H IH|o e H IH|o e H IH
+                   |o r a Ha H IH|o args a Ha H IH]; cbn [occs_expr]; auto.
+    + now left.
     + now left.
     + now left.
     + apply in_or_app; auto.
     + apply in_or_app; auto.
+    + destruct op; [|exact IH].
+      destruct e as [ | | | |v [t|] p| | | | | | | | | | | | ]; try exact IH.
+      discriminate Hnb.
     + apply in_flat_map. eauto.
     + apply in_flat_map. exists (MkMember e). auto.
     + apply in_flat_map. exists (RElement a). auto.
@@ -737,6 +768,307 @@ Lemma untyped_literal_not_checked :
             forall oor, l1142 oor d = [].
 Proof. exists (DConstant (ESigned 300 None 1%N)). repeat split. Qed.
 
+(* --------------------- 3c. the negated bit literal and the range tests *)
+
+Definition plain_occ (o : litocc) : litocc :=
+  MkOcc (oc_pos o) (plain_kind (oc_kind o)) (oc_val o) (oc_ty o).
+
+Definition plain_ev (ev : lintev) : lintev :=
+  match ev with
+  | EvLiteral p k v ty => EvLiteral p (plain_kind k) v ty
+  | EvLoopFirst _ _ _ => ev
+  end.
+
+Lemma map_flat_map {A B C} (g : B -> C) (f : A -> list B) (l : list A) :
+  map g (flat_map f l) = flat_map (fun x => map g (f x)) l.
+Proof.
+  induction l as [|x xs IH]; [reflexivity|].
+  cbn [flat_map]. now rewrite map_app, IH.
+Qed.
+
+(* The walk before the repair saw the same literals at the same places in the
+   order; the repair changed only the kind (hence the range test) of a typed bit
+   literal directly under a negation. *)
+Lemma oldneg_expr_is_plain : forall e, oldneg_expr e = map plain_ev (lint_expr e).
+Proof.
+  induction e as [l r IHl IHr|op e IH| |v ty p|v ty p| |els IH|ms IH|e IH|r IH|e IH|e IH|e IH|r IH| |args IH| ]
+    using expr_ind2; cbn [lint_expr oldneg_expr]; try reflexivity; try assumption.
+  - now rewrite map_app, IHl, IHr.
+  - destruct op; [|exact IH]. destruct e; try exact IH.
+    destruct ty; [reflexivity|exact IH].
+  - rewrite map_flat_map. now apply flat_map_ext_Forall.
+  - rewrite map_flat_map. apply flat_map_ext_Forall.
+    eapply Forall_impl; [|exact IH]. intros [e] He. exact He.
+  - rewrite map_flat_map. apply flat_map_ext_Forall.
+    eapply Forall_impl; [|exact IH]. intros [a| | | | ] Ha; try reflexivity. exact Ha.
+  - rewrite map_flat_map. apply flat_map_ext_Forall.
+    eapply Forall_impl; [|exact IH]. intros [a| | | | ] Ha; try reflexivity. exact Ha.
+  - rewrite map_flat_map. now apply flat_map_ext_Forall.
+Qed.
+
+Lemma visits_of_plain l : visits_of (map plain_ev l) = map plain_occ (visits_of l).
+Proof.
+  unfold visits_of.
+  induction l as [|[p k v ty|a b c] xs IH]; [reflexivity| |]; cbn [map flat_map ev_occ app plain_ev].
+  - now rewrite IH.
+  - exact IH.
+Qed.
+
+Corollary oldneg_visits e : visits_of (oldneg_expr e) = map plain_occ (occs_expr e).
+Proof. now rewrite oldneg_expr_is_plain, visits_of_plain, visits_expr. Qed.
+
+(* ... and, on the specification side: an operator never hides or adds an
+   occurrence, a negation only changes the kind of its operand's occurrence *)
+Lemma occs_unary_plain op e :
+  map plain_occ (occs_expr (EUnary op e)) = map plain_occ (occs_expr e).
+Proof.
+  destruct op; [|reflexivity]. destruct e; try reflexivity.
+  destruct ty; reflexivity.
+Qed.
+
+(* KNegBit is exactly "typed bit literal directly under a negation" *)
+Lemma occs_unary_negbit op e :
+  occs_expr (EUnary op e) =
+  if is_neg_bit op e
+  then match e with EBit v ty p => [MkOcc p KNegBit v ty] | _ => [] end
+  else occs_expr e.
+Proof.
+  destruct op; [|reflexivity]. destruct e; try reflexivity.
+  destruct ty; reflexivity.
+Qed.
+
+Section range_test_facts.
+  Variable tbl : tytag -> option (bool * Z * Z).
+  Variables (t : tytag) (sg : bool) (mn mx : Z).
+  Hypothesis Htbl : tbl t = Some (sg, mn, mx).
+
+  (* signed literal: flagged iff the value is outside [min, max] *)
+  Lemma range_test_signed v :
+    (mn <= 0 <= mx)%Z ->
+    range_test tbl KSigned v t = true <-> ~ (mn <= v <= mx)%Z.
+  Proof.
+    intros Hr. unfold range_test. rewrite Htbl.
+    destruct (v <? 0)%Z eqn:Hneg; [rewrite Z.ltb_lt in *|rewrite Z.ltb_ge in Hneg; rewrite Z.ltb_lt]; lia.
+  Qed.
+
+  (* bit literal (a magnitude): flagged iff the value is outside [min, max] *)
+  Lemma range_test_bit v :
+    (mn <= 0)%Z -> (0 <= v)%Z ->
+    range_test tbl KBit v t = true <-> ~ (mn <= v <= mx)%Z.
+  Proof.
+    intros Hmn Hv. unfold range_test. rewrite Htbl, Z.ltb_lt. lia.
+  Qed.
+
+  (* THE REPAIR.  A bit literal of magnitude v directly under a negation denotes -v;
+     at a signed type (two's complement: min = -max - 1) it is flagged iff -v is
+     below the minimum, i.e. iff -v is outside [min, max] ... *)
+  Lemma range_test_negbit_signed v :
+    sg = true -> mn = (- mx - 1)%Z ->
+    range_test tbl KNegBit v t = true <-> (- v < mn)%Z.
+  Proof.
+    intros -> ->. unfold range_test. rewrite Htbl, Z.ltb_lt. lia.
+  Qed.
+
+  Lemma range_test_negbit_signed_range v :
+    sg = true -> mn = (- mx - 1)%Z -> (0 <= v)%Z -> (0 <= mx)%Z ->
+    range_test tbl KNegBit v t = true <-> ~ (mn <= - v <= mx)%Z.
+  Proof.
+    intros Hsg Hmn Hv Hmx. rewrite (range_test_negbit_signed v Hsg Hmn). lia.
+  Qed.
+
+  (* ... so an in-range value raises no L1142: no false positive at magnitude
+     max + 1 (= -min) any more *)
+  Corollary negated_bit_literal_in_range_not_flagged v :
+    sg = true -> mn = (- mx - 1)%Z -> (mn <= - v)%Z ->
+    range_test tbl KNegBit v t = false.
+  Proof.
+    intros Hsg Hmn Hv. destruct (range_test tbl KNegBit v t) eqn:H; [|reflexivity].
+    apply (range_test_negbit_signed v Hsg Hmn) in H. lia.
+  Qed.
+
+  Corollary negated_min_not_flagged :
+    sg = true -> mn = (- mx - 1)%Z -> range_test tbl KNegBit (mx + 1) t = false.
+  Proof. intros Hsg Hmn. apply negated_bit_literal_in_range_not_flagged; auto. lia. Qed.
+
+  (* at an unsigned type the guard of the new arm fails: the ordinary test *)
+  Lemma range_test_negbit_unsigned v :
+    sg = false -> range_test tbl KNegBit v t = range_test tbl KBit v t.
+  Proof. intros ->. unfold range_test. now rewrite Htbl. Qed.
+
+  (* before the repair the magnitude max + 1 was flagged although -(max + 1) = min *)
+  Lemma range_test_oldneg_flags_min :
+    mn = (- mx - 1)%Z -> (0 <= mx)%Z ->
+    range_test_oldneg tbl KNegBit (mx + 1) t = true /\ (mn <= - (mx + 1) <= mx)%Z.
+  Proof.
+    intros Hmn Hmx. unfold range_test_oldneg, range_test. cbn [plain_kind].
+    rewrite Htbl, Z.ltb_lt. lia.
+  Qed.
+End range_test_facts.
+
+(* for the two literal arms the test is the one from before the repair *)
+Lemma range_test_plain_kinds tbl k v t :
+  k <> KNegBit -> range_test tbl k v t = range_test_oldneg tbl k v t.
+Proof. destruct k; [reflexivity|reflexivity|intros H; now elim H]. Qed.
+
+(* L1142 of the old walk under a test = L1142 of the current walk under the test
+   that reads KNegBit as KBit *)
+Lemma l1142_of_oldneg_expr oor e :
+  l1142_of oor (oldneg_expr e) =
+  l1142_of (fun k => oor (plain_kind k)) (lint_expr e).
+Proof.
+  unfold l1142_of. rewrite oldneg_visits, visits_expr.
+  induction (occs_expr e) as [|o os IH]; [reflexivity|].
+  cbn [map flat_map]. now rewrite IH.
+Qed.
+
+(* The value a literal occurrence denotes: a bit literal directly under a negation
+   denotes the negated magnitude. *)
+Definition occ_value (o : litocc) : Z :=
+  match oc_kind o with KNegBit => (- oc_val o)%Z | _ => oc_val o end.
+
+(* a range table of integer types: two's complement or unsigned *)
+Definition tbl_wf (tbl : tytag -> option (bool * Z * Z)) : Prop :=
+  forall t sg mn mx, tbl t = Some (sg, mn, mx) ->
+    (0 <= mx)%Z /\ (sg = true -> mn = (- mx - 1)%Z) /\ (sg = false -> mn = 0%Z).
+
+(* bit literals are magnitudes (u128) *)
+Definition magnitudes_ok (d : decl) : Prop :=
+  Forall (fun o => oc_kind o <> KSigned -> (0 <= oc_val o)%Z) (occs_decl d).
+
+Lemma range_test_true_out_of_range tbl o t sg mn mx :
+  tbl_wf tbl -> tbl t = Some (sg, mn, mx) ->
+  (oc_kind o <> KSigned -> (0 <= oc_val o)%Z) ->
+  range_test tbl (oc_kind o) (oc_val o) t = true -> ~ (mn <= occ_value o <= mx)%Z.
+Proof.
+  intros Hwf Htbl Hmag Hrt. destruct (Hwf _ _ _ _ Htbl) as [Hmx [Hs Hu]].
+  unfold occ_value. destruct (oc_kind o) eqn:Hk.
+  - apply (range_test_signed tbl t sg mn mx Htbl); [|exact Hrt].
+    destruct sg; [rewrite Hs by reflexivity|rewrite Hu by reflexivity]; lia.
+  - apply (range_test_bit tbl t sg mn mx Htbl); [| |exact Hrt].
+    + destruct sg; [rewrite Hs by reflexivity|rewrite Hu by reflexivity]; lia.
+    + apply Hmag. discriminate.
+  - assert (Hv : (0 <= oc_val o)%Z) by (apply Hmag; discriminate).
+    destruct sg.
+    + apply (range_test_negbit_signed tbl t true mn mx Htbl) in Hrt; auto. lia.
+    + rewrite (range_test_negbit_unsigned tbl t false mn mx Htbl) in Hrt by reflexivity.
+      apply (range_test_bit tbl t false mn mx Htbl) in Hrt; [|rewrite Hu by reflexivity; lia|exact Hv].
+      rewrite Hu in * by reflexivity. lia.
+Qed.
+
+(* "In-range values never raise L1142": with the range tests of linter.rs over a
+   table of integer ranges, every reported position is that of a literal
+   occurrence whose denoted value is outside the range of its type. *)
+Theorem l1142_range_test_only_out_of_range tbl d p :
+  tbl_wf tbl -> magnitudes_ok d ->
+  In p (l1142 (range_test tbl) d) ->
+  exists o t sg mn mx,
+    In o (occs_decl d) /\ oc_pos o = p /\ oc_ty o = Some t /\ tbl t = Some (sg, mn, mx) /\
+    ~ (mn <= occ_value o <= mx)%Z.
+Proof.
+  intros Hwf Hmag Hin. apply l1142_never in Hin.
+  destruct Hin as [o [t [Ho [Hp [Hty Hrt]]]]].
+  destruct (tbl t) as [[[sg mn] mx]|] eqn:Htbl.
+  - exists o, t, sg, mn, mx. repeat (split; [assumption|]).
+    apply (range_test_true_out_of_range tbl o t sg mn mx Hwf Htbl); [|exact Hrt].
+    unfold magnitudes_ok in Hmag. rewrite Forall_forall in Hmag. now apply Hmag.
+  - unfold range_test in Hrt. rewrite Htbl in Hrt. discriminate.
+Qed.
+
+(* "Out-of-range values always raise L1142" - except a negated bit literal of an
+   UNSIGNED type whose magnitude fits (e.g. -0x01 as u8): there the guard of the
+   Unary arm fails and the ordinary test is applied to the magnitude. *)
+Theorem l1142_range_test_every_out_of_range tbl d o t sg mn mx :
+  tbl_wf tbl -> magnitudes_ok d ->
+  In o (occs_decl d) -> oc_ty o = Some t -> tbl t = Some (sg, mn, mx) ->
+  (oc_kind o = KNegBit -> sg = true) ->
+  ~ (mn <= occ_value o <= mx)%Z ->
+  In (oc_pos o) (l1142 (range_test tbl) d).
+Proof.
+  intros Hwf Hmag Ho Hty Htbl Hneg Hout.
+  apply (l1142_always _ d o t Ho Hty).
+  destruct (Hwf _ _ _ _ Htbl) as [Hmx [Hs Hu]].
+  unfold magnitudes_ok in Hmag. rewrite Forall_forall in Hmag. specialize (Hmag o Ho).
+  unfold occ_value in Hout. destruct (oc_kind o) eqn:Hk.
+  - apply (range_test_signed tbl t sg mn mx Htbl); [|exact Hout].
+    destruct sg; [rewrite Hs by reflexivity|rewrite Hu by reflexivity]; lia.
+  - apply (range_test_bit tbl t sg mn mx Htbl); [| |exact Hout].
+    + destruct sg; [rewrite Hs by reflexivity|rewrite Hu by reflexivity]; lia.
+    + apply Hmag. discriminate.
+  - assert (Hv : (0 <= oc_val o)%Z) by (apply Hmag; discriminate).
+    specialize (Hneg eq_refl). subst sg.
+    apply (range_test_negbit_signed tbl t true mn mx Htbl); auto.
+    rewrite (Hs eq_refl) in *. lia.
+Qed.
+
+(* the exception is real: -0x01 as u8 denotes -1, outside 0..255, and is not flagged *)
+Lemma negated_unsigned_not_flagged_refuted :
+  exists tbl d o t sg mn mx,
+    tbl_wf tbl /\ magnitudes_ok d /\ In o (occs_decl d) /\ oc_ty o = Some t /\
+    tbl t = Some (sg, mn, mx) /\ ~ (mn <= occ_value o <= mx)%Z /\
+    l1142 (range_test tbl) d = [].
+Proof.
+  exists (fun t => if N.eqb t 6 then Some (false, 0, 255)%Z else None),
+    (DConstant (EUnary UNegative (EBit 1 (Some 6%N) 1%N))),
+    (MkOcc 1 KNegBit 1 (Some 6%N)), 6%N, false, 0%Z, 255%Z.
+  split.
+  { intros t sg mn mx H. destruct (N.eqb t 6); [|discriminate]. inversion H; subst.
+    repeat split; try lia; discriminate. }
+  split.
+  { repeat constructor. cbn. lia. }
+  split; [now left|]. repeat split. cbn. lia.
+Qed.
+
+Definition i8 : tytag := 1%N.
+
+Definition toy_tbl (t : tytag) : option (bool * Z * Z) :=
+  if N.eqb t i8 then Some (true, -128, 127)%Z
+  else if N.eqb t u8 then Some (false, 0, 255)%Z
+  else None.
+
+(* const X: i8 = -0x80;  (the literal at position 1) *)
+Definition prog_neg_min : decl := DConstant (EUnary UNegative (EBit 128 (Some i8) 1%N)).
+
+(* (c) the walk of before the repair flagged -0x80 as i8, an in-range value; the
+   current one does not, and still flags -0x81 *)
+Lemma negated_min_literal_pinned_refuted :
+  exists d, l1142_of (range_test toy_tbl) (lint_decl_oldneg d) = [1%N] /\
+            l1142 (range_test_oldneg toy_tbl) d = [1%N] /\
+            l1142 (range_test toy_tbl) d = [] /\
+            occs_decl d = [MkOcc 1 KNegBit 128 (Some i8)] /\
+            toy_tbl i8 = Some (true, -128, 127)%Z.
+Proof. exists prog_neg_min. vm_compute. repeat split. Qed.
+
+Section example_negated.
+Local Open Scope Z_scope.
+Example example_negated_bit_literals :
+  let c e := DConstant e in
+  let bit v ty := EBit v (Some ty) 1%N in
+  let lints d := l1142 (range_test toy_tbl) d in
+  (* -0x80, -0x81 as i8 *)
+  lints (c (EUnary UNegative (bit 128 i8))) = [] /\
+  lints (c (EUnary UNegative (bit 129 i8))) = [1%N] /\
+  (* 0x7F, 0x80 as i8 *)
+  lints (c (bit 127 i8)) = [] /\ lints (c (bit 128 i8)) = [1%N] /\
+  (* every other shape falls through to the BitIntegerLiteral arm: -(0x80), !0x80 *)
+  lint_decl (c (EUnary UNegative (EParen (bit 128 i8)))) = [EvLiteral 1 KBit 128 (Some i8)] /\
+  lints (c (EUnary UNegative (EParen (bit 128 i8)))) = [1%N] /\
+  lint_decl (c (EUnary UBitwiseComplement (bit 128 i8))) = [EvLiteral 1 KBit 128 (Some i8)] /\
+  lints (c (EUnary UBitwiseComplement (bit 128 i8))) = [1%N] /\
+  (* unsigned type: the arm's guard fails, ordinary test: -0xFF, -0x100 as u8 *)
+  lint_decl (c (EUnary UNegative (bit 255 u8))) = [EvLiteral 1 KNegBit 255 (Some u8)] /\
+  lints (c (EUnary UNegative (bit 255 u8))) = [] /\
+  lints (c (EUnary UNegative (bit 256 u8))) = [1%N] /\
+  (* no type: falls through, looked at by the catch-all arm, not tested *)
+  lint_decl (c (EUnary UNegative (EBit 128 None 1%N))) = [EvLiteral 1 KBit 128 None] /\
+  (* the operand of the INNER negation of -(-0x80) is again directly under a negation *)
+  lint_decl (c (EUnary UNegative (EParen (EUnary UNegative (bit 128 i8))))) =
+    [EvLiteral 1 KNegBit 128 (Some i8)] /\
+  lints (c (EUnary UNegative (EParen (EUnary UNegative (bit 128 i8))))) = [] /\
+  (* a signed (decimal) literal is not concerned *)
+  lints (c (ESigned (-128) (Some i8) 1%N)) = [] /\ lints (c (ESigned (-129) (Some i8) 1%N)) = [1%N].
+Proof. vm_compute. repeat split. Qed.
+End example_negated.
+
 (* ------------------------------------------------------- 4. examples *)
 
 Definition usize : tytag := 10%N.
@@ -793,28 +1125,28 @@ Definition example_decl : decl :=
                       (SBlock (MkBlock [SLoop 508%N] 507%N)) None;
                   SLoop 509%N ] 504%N))
              503%N));
-      SAssignment [] (EUnary (EBit 312 (Some u8) 312%N)) ]
+      SAssignment [] (EUnary UBitwiseComplement (EBit 312 (Some u8) 312%N)) ]
     (Some (ESigned 313 (Some u8) 313%N)))).
 
 Example example_events :
   lint_decl example_decl =
-  [ EvLiteral 302 true 302 (Some u8); EvLiteral 303 true 303 (Some u8);
-    EvLiteral 304 true (-304) (Some u8); EvLiteral 1 true 1 (Some u8);
-    EvLiteral 305 true 305 (Some u8); EvLiteral 306 true 306 (Some u8);
-    EvLiteral 2 true 2 (Some u8);
-    EvLiteral 400 false (2 ^ 64) (Some usize);
-    EvLiteral 307 true 307 (Some u8); EvLiteral 308 false 308 (Some u8);
-    EvLiteral 401 false (2 ^ 64 + 1) (Some usize); EvLiteral 309 true 309 (Some u8);
+  [ EvLiteral 302 KSigned 302 (Some u8); EvLiteral 303 KSigned 303 (Some u8);
+    EvLiteral 304 KSigned (-304) (Some u8); EvLiteral 1 KSigned 1 (Some u8);
+    EvLiteral 305 KSigned 305 (Some u8); EvLiteral 306 KSigned 306 (Some u8);
+    EvLiteral 2 KSigned 2 (Some u8);
+    EvLiteral 400 KBit (2 ^ 64) (Some usize);
+    EvLiteral 307 KSigned 307 (Some u8); EvLiteral 308 KBit 308 (Some u8);
+    EvLiteral 401 KBit (2 ^ 64 + 1) (Some usize); EvLiteral 309 KSigned 309 (Some u8);
     EvLoopFirst 502 500 501;
-    EvLiteral 310 true 310 (Some u8);
-    EvLiteral 311 true 311 (Some u8);
+    EvLiteral 310 KSigned 310 (Some u8);
+    EvLiteral 311 KSigned 311 (Some u8);
     EvLoopFirst 508 506 507;
-    EvLiteral 312 false 312 (Some u8);
-    EvLiteral 313 true 313 (Some u8) ].
+    EvLiteral 312 KBit 312 (Some u8);
+    EvLiteral 313 KSigned 313 (Some u8) ].
 Proof. vm_compute. reflexivity. Qed.
 
 (* a toy range test, enough for this example: u8 and usize *)
-Definition toy_out_of_range (sg : bool) (v : Z) (t : tytag) : bool :=
+Definition toy_out_of_range (k : litkind) (v : Z) (t : tytag) : bool :=
   if N.eqb t usize then (2 ^ 64 - 1 <? v)%Z else ((v <? 0) || (255 <? v))%Z.
 
 Example example_positions :
@@ -873,3 +1205,15 @@ Print Assumptions walk_current_is_lint.
 Print Assumptions pinned_traversal_refuted_return.
 Print Assumptions pinned_traversal_refuted_condition.
 Print Assumptions noparen_traversal_refuted.
+Print Assumptions oldneg_expr_is_plain.
+Print Assumptions range_test_signed.
+Print Assumptions range_test_bit.
+Print Assumptions range_test_negbit_signed.
+Print Assumptions range_test_negbit_signed_range.
+Print Assumptions negated_bit_literal_in_range_not_flagged.
+Print Assumptions range_test_negbit_unsigned.
+Print Assumptions range_test_oldneg_flags_min.
+Print Assumptions negated_min_literal_pinned_refuted.
+Print Assumptions l1142_range_test_only_out_of_range.
+Print Assumptions l1142_range_test_every_out_of_range.
+Print Assumptions negated_unsigned_not_flagged_refuted.
